@@ -14,7 +14,7 @@ import numpy as np
 from simcore.core import new_outcome, violation, bump
 
 PID = 'C14'
-QUICK_RUNS = 3000
+QUICK_RUNS = 20000
 QUICK_SECONDS = 120
 THOROUGH_SECONDS = 900
 CASE_TIMEOUT = 120
